@@ -4,8 +4,14 @@
 usage: baseline.py [repo_dir] [-n workers] [pytest args...]
 Exit 0 iff every test in BASELINE.stable_pass passed.  Prints the failing baseline tests.
 """
-import json, os, subprocess, sys, tempfile
+import json, os, signal, subprocess, sys, tempfile
 import xml.etree.ElementTree as ET
+
+def _sigdfl():
+    # background jobs of non-interactive shells inherit SIGINT=SIG_IGN, which breaks tests that
+    # raise SIGINT in a pytest subprocess
+    signal.signal(signal.SIGINT, signal.SIG_DFL)
+
 
 def main():
     args = sys.argv[1:]
@@ -24,7 +30,8 @@ def main():
     if workers != "0":
         cmd += ["-n", workers]
     cmd += args or ["tests"]
-    p = subprocess.run(cmd, cwd=repo, env=env, stdout=subprocess.PIPE, stderr=subprocess.STDOUT, text=True)
+    p = subprocess.run(cmd, cwd=repo, env=env, stdout=subprocess.PIPE, stderr=subprocess.STDOUT, text=True,
+                       preexec_fn=_sigdfl)
     tail = p.stdout.strip().splitlines()[-1:] 
     passed = set(); seen = set()
     try:
@@ -56,7 +63,8 @@ def main():
                     still.append(m); continue
                 q = subprocess.run(["/venv/bin/python", "-m", "pytest", "-q", "-p", "no:cacheprovider",
                                     "--timeout=900", node], cwd=repo, env=env,
-                                   stdout=subprocess.PIPE, stderr=subprocess.STDOUT, text=True)
+                                   stdout=subprocess.PIPE, stderr=subprocess.STDOUT, text=True,
+                                   preexec_fn=_sigdfl)
                 if q.returncode != 0:
                     still.append(m)
                 else:
